@@ -419,7 +419,7 @@ def overrides_to_file(cases, path):
 
     evs = []
     for c in cases:
-        ins = tuple(Instruction("LOAD_CONST", Constant(CONST_OF[v], None if o < 0 else o), line_number=1) for v, o in c["prog"])
+        ins = tuple(Instruction("LOAD_CONST", Constant(CONST_OF[v], None if o == -1 else o), line_number=1) for v, o in c["prog"])
         cd = CodeData(blocks=(ins + (Instruction("RETURN_VALUE", line_number=1),),), filename="<ovr>", first_line_number=1,
                       name="o", stacksize=len(ins) + 1)
         ev, _ = encode_event(cd, c["id"], "hand")
